@@ -32,7 +32,7 @@ func runC17(r *Run) {
 	r.RuleDoc("C17.R3", "errors of API writes issued in goroutines are collected, returned by the helper and reach ReconcileError / PodsCleanupDone / a returned error in every caller; the condition is written on the status object that is persisted")
 	r.Floor("C17.R1", 6)
 	r.Floor("C17.R2", 20)
-	r.Floor("C17.R3", 11)
+	r.Floor("C17.R3", 13)
 	r.NotCovered("races inside client libraries, the fake client or any function outside the repository (they are assumed not to write through the pointers they receive); " +
 		"dynamic schedules, deadlocks, sends on a closed or full channel; happens-before through channels (only WaitGroup barriers and mutexes are recognised, anything else is reported); " +
 		"that the ReconcileError/PodsCleanupDone condition written to the in-memory status is finally persisted (C09/C14); the clean-up error returned by cleanupPods to ManageDeployment is not required to be returned further (PodsCleanupDone reflects it)")
@@ -553,7 +553,7 @@ func c17RaceAt(r *Run, ws *dWriteSummary, spawner *ssa.Function, g *ssa.Go) {
 		for _, ins := range b.Instrs {
 			if ci, ok := ins.(*ssa.Call); ok {
 				if name, isSync := dIsSyncCall(&ci.Call); isSync && name == "Add" && len(ci.Call.Args) > 0 {
-					if m := sMutex(ci.Call.Args[0]); m != "" && dDominatesInstr(ci, g) {
+					if m := sMutex(ci.Call.Args[0]); m != "" && c17AddCounts(ci, g) {
 						addDominates[m] = true
 					}
 				}
@@ -573,6 +573,18 @@ func c17RaceAt(r *Run, ws *dWriteSummary, spawner *ssa.Function, g *ssa.Go) {
 		u := wg[m]
 		return m != "" && u != nil && u.doneAlways && !u.add && addDominates[m]
 	}
+	// a variable allocated afresh for every execution of the go statement is a different variable once its
+	// allocation is executed again: only what the spawner does before that touches this goroutine's copy
+	sameCell := map[string]map[ssa.Instruction]bool{}
+	for fv, bv := range binding {
+		if al, ok := bv.(*ssa.Alloc); ok && multi && perInstance(bv) {
+			set := map[ssa.Instruction]bool{}
+			for _, ins := range c17AfterGo(g, func(x ssa.Instruction) bool { return isBarrier(x) || x == ssa.Instruction(al) }) {
+				set[ins] = true
+			}
+			sameCell["var "+fv.Name()] = set
+		}
+	}
 	for _, ins := range c17AfterGo(g, isBarrier) {
 		if ins == ssa.Instruction(g) {
 			continue
@@ -582,6 +594,9 @@ func c17RaceAt(r *Run, ws *dWriteSummary, spawner *ssa.Function, g *ssa.Go) {
 		}
 		var und []string
 		for _, a := range c17InstrAccesses(r, ins, sNamer, ws, &und) {
+			if set, fresh := sameCell[a.datum]; fresh && a.level == 0 && !set[ins] {
+				continue
+			}
 			a.held = sHeld[ins]
 			acc = append(acc, a)
 		}
@@ -1119,10 +1134,12 @@ func c17ContRoot(v ssa.Value) ssa.Value {
 		}
 		root = c.Root
 	}
-	// a channel variable assigned once (e.g. a parameter captured by the closer goroutine) stands for that value
+	// a channel or pointer variable assigned once (e.g. a parameter captured by the closer goroutine) stands for that value
 	if a, ok := root.(*ssa.Alloc); ok {
 		if pt, ok := a.Type().(*types.Pointer); ok {
-			if _, isCh := pt.Elem().Underlying().(*types.Chan); isCh {
+			_, isCh := pt.Elem().Underlying().(*types.Chan)
+			_, isPtr := pt.Elem().Underlying().(*types.Pointer)
+			if isCh || isPtr {
 				if v0 := dCellValue(a); v0 != nil && v0 != v {
 					if r2 := c17ContRoot(v0); r2 != nil {
 						return r2
@@ -1373,6 +1390,12 @@ func c17Collected(r *Run, helper, body *ssa.Function, g *ssa.Go, e *Effect) bool
 		ok2, why = c17SliceReturned(helper, used.cont)
 	}
 	r.Check("C17.R3", construct+" returned", r.Prog.Pos(helper.Pos()), hf, "the helper returns every collected error ("+used.kind+" "+used.name+")", ok2, why)
+	if used.kind == "chan" {
+		ok3, why3 := c17ClosedAfterSenders(r, helper, body, g, env, used.cont)
+		r.Check("C17.R3", construct+" channel closed after the senders", pos, hf,
+			"the error channel is closed only after a WaitGroup.Wait that every sending goroutine signals (deferred Done) and that the spawner's Add counts (otherwise errors sent after the close are lost)", ok3, why3)
+		ok2 = ok2 && ok3
+	}
 	return ok2
 }
 
@@ -1482,6 +1505,69 @@ func c17ChanDrained(r *Run, fn *ssa.Function, isChan func(ssa.Value) bool, depth
 	if valEx == nil {
 		return false, "received errors are discarded"
 	}
+	// every iteration that received a non-nil error appends it to what is returned
+	isVal := func(v ssa.Value) bool { return unwrap(v) == valEx }
+	var appends []ssa.Instruction
+	for _, b := range helper.Blocks {
+		if !inLoop(b) {
+			continue
+		}
+		for _, ins := range b.Instrs {
+			if c, ok := ins.(*ssa.Call); ok && dBuiltin(&c.Call) == "append" && len(c.Call.Args) > 1 && anyOrigin(c.Call.Args[1], isVal) {
+				flows := false
+				for _, rt := range dNormalReturns(helper) {
+					for _, res := range rt.Results {
+						if anyOrigin(res, func(v ssa.Value) bool { return v == ssa.Value(c) }) || unwrapPhiReaches(res, c) {
+							flows = true
+						}
+					}
+				}
+				if flows {
+					appends = append(appends, ins)
+				}
+			}
+		}
+	}
+	kk := newKeyer(helper)
+	body, okb := enumPaths(helper, kk, rb, func(b *ssa.BasicBlock) bool {
+		if b == rb {
+			return false
+		}
+		for _, sc := range b.Succs {
+			if sc == rb {
+				return true
+			}
+		}
+		return false
+	}, nil, 500)
+	if !okb {
+		return false, "the loop draining the error channel is too complex"
+	}
+	for _, bp := range body {
+		if len(bp.Blocks) < 2 || bp.Blocks[1] != rb.Succs[0] {
+			continue
+		}
+		last := bp.Blocks[len(bp.Blocks)-1]
+		facts := factSet{}
+		for k2, f := range bp.Facts {
+			facts[k2] = f
+		}
+		for _, f := range kk.edgeFacts(last, rb) {
+			facts[fkey(f)] = f
+		}
+		if facts.any(true, func(v ssa.Value, _ string) bool { return isNilCompareOf(v, isVal) }) {
+			continue // a nil value was received: nothing to keep
+		}
+		kept := false
+		for _, a := range appends {
+			if bp.Contains(a.Block()) {
+				kept = true
+			}
+		}
+		if !kept {
+			return false, "an iteration of the draining loop that received a non-nil error does not append it to the returned errors (path [" + shortFacts(bp) + "])"
+		}
+	}
 	for _, rt := range dNormalReturns(helper) {
 		found := false
 		for _, res := range rt.Results {
@@ -1494,6 +1580,97 @@ func c17ChanDrained(r *Run, fn *ssa.Function, isChan func(ssa.Value) bool, depth
 		}
 	}
 	return true, "range over the channel until close; received errors are appended to the returned slice"
+}
+
+// unwrapPhiReaches reports whether value v can be the result of call c through phis and appends.
+func unwrapPhiReaches(v ssa.Value, c *ssa.Call) bool {
+	seen := map[ssa.Value]bool{}
+	var rec func(x ssa.Value) bool
+	rec = func(x ssa.Value) bool {
+		if x == nil || seen[x] {
+			return false
+		}
+		seen[x] = true
+		if x == ssa.Value(c) {
+			return true
+		}
+		switch y := x.(type) {
+		case *ssa.Phi:
+			for _, e := range y.Edges {
+				if rec(e) {
+					return true
+				}
+			}
+		case *ssa.Call:
+			if dBuiltin(&y.Call) == "append" {
+				return rec(y.Call.Args[0])
+			}
+		}
+		return false
+	}
+	return rec(v)
+}
+
+// c17AddCounts: the WaitGroup.Add call accounts for the goroutine started by g — a positive constant
+// executed once per execution of the go statement, or len(S) before a range loop over S that holds
+// the go statement.
+func c17AddCounts(add *ssa.Call, g *ssa.Go) bool {
+	if len(add.Call.Args) < 2 || !dDominatesInstr(add, g) {
+		return false
+	}
+	delta := add.Call.Args[1]
+	multi := dReaches(g.Block(), g.Block())
+	if c, ok := constInt(delta); ok {
+		if c < 1 {
+			return false
+		}
+		if !multi {
+			return true
+		}
+		// every cycle through the go statement passes the Add
+		if add.Block() == g.Block() {
+			return true
+		}
+		seen := map[*ssa.BasicBlock]bool{add.Block(): true}
+		work := append([]*ssa.BasicBlock{}, g.Block().Succs...)
+		for len(work) > 0 {
+			b := work[len(work)-1]
+			work = work[:len(work)-1]
+			if seen[b] {
+				continue
+			}
+			seen[b] = true
+			if b == g.Block() {
+				return false
+			}
+			work = append(work, b.Succs...)
+		}
+		return true
+	}
+	// Add(len(S)) ahead of `for … range S { go … }`
+	lc, ok := unwrap(delta).(*ssa.Call)
+	if !ok || dBuiltin(&lc.Call) != "len" || !multi || dReaches(g.Block(), add.Block()) {
+		return false
+	}
+	k := newKeyer(g.Parent())
+	for h := g.Block(); h != nil; h = h.Idom() {
+		if !dInLoop(h, g.Block()) || h == g.Block() {
+			continue
+		}
+		iff, ok := h.Instrs[len(h.Instrs)-1].(*ssa.If)
+		if !ok {
+			continue
+		}
+		cmp, ok := iff.Cond.(*ssa.BinOp)
+		if !ok || cmp.Op != token.LSS {
+			continue
+		}
+		ln, ok := cmp.Y.(*ssa.Call)
+		if ok && dBuiltin(&ln.Call) == "len" && k.key(ln.Call.Args[0]) == k.key(lc.Call.Args[0]) {
+			return true
+		}
+	}
+	return false
 }
 
 func c17SliceReturned(helper *ssa.Function, cell ssa.Value) (bool, string) {
@@ -1963,8 +2140,57 @@ func c17Persisters(r *Run, reach map[*ssa.Function]bool) map[*ssa.Function]int {
 				}
 			}
 		}
+		// or the status is copied into the object's Status field by a function that assigns *dst = *src
+		// (the generated DeepCopyInto)
+		for _, ci := range callsIn(fn) {
+			c := ci.Common()
+			callee := staticCallee(c)
+			if callee == nil || len(callee.Blocks) == 0 {
+				continue
+			}
+			for si, src := range c.Args {
+				p, ok := unwrap(src).(*ssa.Parameter)
+				if !ok || p.Parent() != fn || !c17IsStatusPtr(p.Type()) || si >= len(callee.Params) {
+					continue
+				}
+				for di, dst := range c.Args {
+					fa, ok := dst.(*ssa.FieldAddr)
+					if !ok || di == si || fieldName(fa) != "Status" || di >= len(callee.Params) {
+						continue
+					}
+					isObj := false
+					for _, ch := range dChains(fa.X, true) {
+						for _, o := range objRoots {
+							if ch.Root == o {
+								isObj = true
+							}
+						}
+					}
+					if isObj && c17CopiesInto(callee, si, di) && dDominatesInstr(ci, e.Call) {
+						out[fn] = paramIndex(p)
+					}
+				}
+			}
+		}
 	}
 	return out
+}
+
+// c17CopiesInto: fn assigns *param#dst = *param#src as a whole.
+func c17CopiesInto(fn *ssa.Function, src, dst int) bool {
+	ps, pd := fn.Params[src], fn.Params[dst]
+	for _, b := range fn.Blocks {
+		for _, in := range b.Instrs {
+			st, ok := in.(*ssa.Store)
+			if !ok || st.Addr != ssa.Value(pd) {
+				continue
+			}
+			if ld, ok := st.Val.(*ssa.UnOp); ok && ld.Op == token.MUL && ld.X == ssa.Value(ps) {
+				return true
+			}
+		}
+	}
+	return false
 }
 
 type c17Persist struct {
@@ -2246,4 +2472,150 @@ func c17StatusPersisted(r *Run, ers *ssa.Function, reach map[*ssa.Function]bool)
 		ok, why := cp.statusPersisted(fn, s.call, obj, 0)
 		r.Check("C17.R3", construct, pos, shortFunc(fn), need, ok, why)
 	}
+}
+
+// c17LiftToHelper resolves a value of fn — the helper itself, a closure made in it, a repository
+// function it calls, or a closure made there — to the helper-level root it stands for (nil if unknown).
+func c17LiftToHelper(r *Run, helper, fn *ssa.Function, v ssa.Value, depth int) ssa.Value {
+	root := c17ContRoot(v)
+	if root == nil || depth > 4 {
+		return nil
+	}
+	if fn == helper {
+		return root
+	}
+	switch x := root.(type) {
+	case *ssa.FreeVar:
+		var out ssa.Value
+		for _, mc := range r.Prog.closureSites(fn) {
+			for i, fv := range fn.FreeVars {
+				if fv == x && i < len(mc.Bindings) {
+					h := c17LiftToHelper(r, helper, mc.Parent(), mc.Bindings[i], depth+1)
+					if h == nil || (out != nil && out != h) {
+						return nil
+					}
+					out = h
+				}
+			}
+		}
+		return out
+	case *ssa.Parameter:
+		var out ssa.Value
+		for _, cs := range r.Prog.callSitesAll(fn) {
+			caller := cs.Parent()
+			top := caller
+			for top.Parent() != nil {
+				top = top.Parent()
+			}
+			if top != helper {
+				continue // other users of the function are judged at their own helper
+			}
+			idx := paramIndex(x)
+			if idx >= len(cs.Common().Args) {
+				return nil
+			}
+			h := c17LiftToHelper(r, helper, caller, cs.Common().Args[idx], depth+1)
+			if h == nil || (out != nil && out != h) {
+				return nil
+			}
+			out = h
+		}
+		return out
+	}
+	return nil
+}
+
+// c17ClosedAfterSenders: every close of the error channel happens after Wait on the WaitGroup that
+// the sending goroutine signals with a deferred Done and that the spawner's Add accounts for.
+func c17ClosedAfterSenders(r *Run, helper, body *ssa.Function, g *ssa.Go, env c17Env, cont ssa.Value) (bool, string) {
+	// functions working for the helper: itself, its closures, repository callees and their closures
+	scope := map[*ssa.Function]bool{helper: true}
+	for changed := true; changed; {
+		changed = false
+		for _, fn := range sortedFuncs(scope) {
+			for _, b := range fn.Blocks {
+				for _, in := range b.Instrs {
+					var f2 *ssa.Function
+					switch x := in.(type) {
+					case *ssa.MakeClosure:
+						f2, _ = x.Fn.(*ssa.Function)
+					case ssa.CallInstruction:
+						if c := staticCallee(x.Common()); c != nil && r.Prog.IsRepoFunc(c) && fn == helper {
+							f2 = c
+						}
+					}
+					if f2 != nil && !scope[f2] && len(f2.Blocks) > 0 {
+						scope[f2] = true
+						changed = true
+					}
+				}
+			}
+		}
+	}
+	// the WaitGroup the sender signals
+	var senderWG ssa.Value
+	for _, in := range body.Blocks[0].Instrs {
+		d, ok := in.(*ssa.Defer)
+		if !ok {
+			continue
+		}
+		if name, isSync := dIsSyncCall(&d.Call); isSync && name == "Done" && len(d.Call.Args) > 0 {
+			for _, c := range dChains(d.Call.Args[0], true) {
+				if h := env(c.Root); h != nil {
+					senderWG = c17ContRoot(h)
+				}
+			}
+		}
+	}
+	nClose := 0
+	for _, fn := range sortedFuncs(scope) {
+		for _, b := range fn.Blocks {
+			for _, in := range b.Instrs {
+				c, ok := in.(*ssa.Call)
+				if !ok || dBuiltin(&c.Call) != "close" || len(c.Call.Args) != 1 {
+					continue
+				}
+				if c17LiftToHelper(r, helper, fn, c.Call.Args[0], 0) != cont {
+					continue
+				}
+				nClose++
+				if senderWG == nil {
+					return false, "the channel is closed at " + r.Prog.Pos(c.Pos()) + " but the sending goroutine does not signal a WaitGroup with a deferred Done"
+				}
+				waited := false
+				for _, b2 := range fn.Blocks {
+					for _, in2 := range b2.Instrs {
+						w, ok := in2.(*ssa.Call)
+						if !ok {
+							continue
+						}
+						if name, isSync := dIsSyncCall(&w.Call); isSync && name == "Wait" && len(w.Call.Args) > 0 && dDominatesInstr(w, c) &&
+							c17LiftToHelper(r, helper, fn, w.Call.Args[0], 0) == senderWG {
+							waited = true
+						}
+					}
+				}
+				if !waited {
+					return false, "the channel is closed at " + r.Prog.Pos(c.Pos()) + " without first waiting on the senders' WaitGroup"
+				}
+			}
+		}
+	}
+	if nClose == 0 {
+		return true, "the channel is never closed by the helper (termination of the drain is out of scope)"
+	}
+	counted := false
+	for _, ci := range callsIn(helper) {
+		a, ok := ci.(*ssa.Call)
+		if !ok {
+			continue
+		}
+		if name, isSync := dIsSyncCall(&a.Call); isSync && name == "Add" && len(a.Call.Args) > 0 && c17ContRoot(a.Call.Args[0]) == senderWG && c17AddCounts(a, g) {
+			counted = true
+		}
+	}
+	if !counted {
+		return false, "no WaitGroup.Add with a positive count accounts for the goroutine before it is started: Wait can return, and the channel be closed, while it still sends"
+	}
+	return true, "closed after Wait on the WaitGroup the senders signal; Add counts every goroutine"
 }
